@@ -151,7 +151,7 @@ func (g *condGen) F(d int) *Node {
 		for i := 0; i < n; i++ {
 			if g.r.Chance(1, 5) {
 				// data taken out of a quoted literal: an unquoted list or symbol VALUE
-				xs = append(xs, Call("car", Q(L(PickNode(g.r, L(A("+"), I(1), I(2)), A("zz"), L(A("list"), I(4)), L(A("sim:probe"), Str("leak"), I(1)), I(5)), I(0)))))
+				xs = append(xs, Call("car", Q(L(PickNode(g.r, L(A("+"), I(1), I(2)), A("zz"), L(A("list"), I(4)), L(A("sim:probe"), Str("leak"), I(1)), I(5), A("lisp:car"), A("nosuchpkg:thing"), A("user:zz"), A(":kw")), I(0)))))
 			} else {
 				xs = append(xs, g.F(d-2))
 			}
